@@ -240,6 +240,10 @@ def run(chk):
                       "compilation result violates ResultOK (generated_correctly <=> no errors; every error has a message and a location in a "
                       "supplied file / __standards__ / '-'): %s for input %s" % (json.dumps(bad)[:800], json.dumps(inputs[bad["input"]])[:800] if bad else None),
                       {"event": bad, "input": bad and inputs[bad["input"]]})
+    # macro extraction with its error recovery: every short token stream, TheoExtract against Theo::extract_macros (sanitizer build)
+    import x01
+    nx, _ = x01.extract_leg(chk, tha, 6 if chk.thorough else 5)
+    chk.add("extraction_streams_compared_with_TheoExtract", nx)
     chk.cov["evaluations"] = len(inputs)
     shapes = {(e["ok"], tuple((x["t"], x["file"] == "-", x["file"] == "__standards__") for x in e["errors"][:3])) for e in evs}
     chk.cov["distinct_nontrivial"] = len(shapes)
